@@ -18,6 +18,40 @@ STRINGS = ["9" * 400, "1" + "0" * 320, "7" * 4300, "", " ", "14", "25", "26", "1
            "9" * 30, "1" * 4301, "0" * 4400 + "16384", "１５", "৪"]
 
 
+LIM = 10 ** 4000
+BIG = 2 ** 2000
+
+
+def dec(n):
+    """Decimal text of an integer of any size (the interpreter refuses str() beyond 4300 digits,
+    and the harness must not lift that limit: the code under test runs in this process)."""
+    if -LIM < n < LIM:
+        return str(n)
+    sign, n = ("-", -n) if n < 0 else ("", n)
+    parts = []
+    while n:
+        n, r = divmod(n, LIM)
+        parts.append(str(r).rjust(4000, "0") if n else str(r))
+    return sign + "".join(reversed(parts))
+
+
+def undec(s):
+    if isinstance(s, int):
+        return s
+    sign = -1 if s.startswith("-") else 1
+    s = s.lstrip("-")
+    n = 0
+    for i in range(0, len(s), 4000):
+        chunk = s[i:i + 4000]
+        n = n * 10 ** len(chunk) + int(chunk)
+    return sign * n
+
+
+def jv(n):
+    """JSON-able form of an integer value in a recorded case"""
+    return n if -LIM < n < LIM else dec(n)
+
+
 def spec_accepts(n):
     """Reference decision: exponent 14..25, or a power of two >= 16 KiB."""
     if 14 <= n <= 25:
@@ -58,7 +92,7 @@ def run(tier, seed, replay=None):
 
     values = []
     if replay:
-        values = [replay["case"]["value"]] if "value" in replay["case"] else []
+        values = [undec(replay["case"]["value"])] if "value" in replay["case"] else []
     else:
         top = 2 ** 18 if tier == "quick" else 2 ** 21
         values = list(range(-2048, top + 3))
@@ -66,18 +100,19 @@ def run(tier, seed, replay=None):
             values += [2 ** k + d for d in (-2, -1, 0, 1, 2)]
         values += [rng.randrange(2 ** 14, 2 ** 64) for _ in range(20000 if tier == "quick" else 400000)]
         values += [2 ** rng.randrange(14, 200) for _ in range(200)]
-        values += [2 ** 1024, 2 ** 1024 + 1, 2 ** 1100 - 1, 10 ** 400, 10 ** 400 + 7, -(10 ** 400), 2 ** 5000]
+        values += [2 ** 1024, 2 ** 1024 + 1, 2 ** 1100 - 1, 10 ** 400, 10 ** 400 + 7, -(10 ** 400), 2 ** 5000,
+                   10 ** 5000, 10 ** 4300, 10 ** 4299 + 1, -(10 ** 5000), 2 ** 20000 + 1, 3 ** 10000]
     sample_for_model = set()
     for n in values:
         got = norm(n)
         want = spec_accepts(n)
         exp = ("ok", want) if want is not None else ("ple", None)
         nt = (n > 2 ** 14 and n & (n - 1) != 0) or any(abs(n - 2 ** k) <= 2 for k in (13, 14, 15, 20, 25, 26, 40))
-        run.case(n, nt)
+        run.case(n if -LIM < n < LIM else f"{n.bit_length()}bits:{n % 1000003}", nt)
         if got != exp:
-            run.fail("impl-vs-spec", {"value": n, "route": "normalize_piece_length"},
+            run.fail("impl-vs-spec", {"value": jv(n), "route": "normalize_piece_length"},
                      {"impl": got, "spec": exp})
-        if nt and len(sample_for_model) < 3000 or -30 <= n <= 40:
+        if nt and len(sample_for_model) < 3000 or -30 <= n <= 40 or abs(n) > BIG:
             sample_for_model.add(n)
     strings = STRINGS + [str(v) for v in (14, 20, 25, 26, 16384, 65536, 65537, 2 ** 30)]
     if replay and "string" in replay["case"]:
@@ -94,7 +129,7 @@ def run(tier, seed, replay=None):
                      {"impl": got, "spec": exp})
         drv.ask("npl s " + (s.encode("utf8").hex() or "-"), ("s", s, got))
     for n in sorted(sample_for_model):
-        drv.ask(f"npl i {n}", ("i", n, norm(n)))
+        drv.ask("npl i " + dec(n), ("i", n, norm(n)))
     # other non-int values through the library
     for v in (None, 1.5, 16384.0, b"16384", [16384], True):
         if replay:
@@ -227,12 +262,12 @@ def run(tier, seed, replay=None):
             continue
         model = ("ok", int(out.split()[1])) if out.startswith("ok") else ("ple", None)
         if model != got:
-            key = {"value": v} if kind == "i" else {"string": v}
+            key = {"value": jv(v)} if kind == "i" else {"string": v}
             run.fail("impl-vs-model", key, {"correspondence": "Impl.normalizeInt/normalizeStr",
                                             "model": out, "impl": got})
         want = spec_accepts(v) if kind == "i" else spec_str(v)
         if model != (("ok", want) if want is not None else ("ple", None)):
-            run.fail("spec-vs-ref", {"value": str(v)[:50]}, {"model": out, "ref": want})
+            run.fail("spec-vs-ref", {"value": (dec(v) if kind == "i" else str(v))[:50]}, {"model": out, "ref": want})
     return run.finish()
 
 
